@@ -23,6 +23,9 @@ RULE = ("programs = (a) every kernel kind of curated + random-grammar problems, 
         "variables on 4 environments each; programs whose original is unsafe or non-terminating are discarded; non-trivial = "
         "the optimiser actually rewrote the program; distinct by program text")
 
+FLOATS_DYADIC = (0.0, 1.0, -1.0, 0.5, 2.0, -2.5, 3.0)
+FLOATS_ANY = (0.003, 0.1, -0.7, 1.0 / 3.0, 0.006, 1e16 + 2.0, 123456.789, -1e-3, 2.5, 0.0)
+
 PLAN = {
     "quick": dict(shards=12, fmt=3, inp=1, rnd=500, trees=26000, envs=4),
     "thorough": dict(shards=16, fmt=30, inp=2, rnd=16000, trees=1_500_000, envs=5),
@@ -216,7 +219,7 @@ def shard(rec, tier, index, n_shards):
     n_trees = plan["trees"] // n_shards
     for t in range(n_trees):
         stmt = t % 3 != 0
-        P = irgen.statement_program(rng) if stmt else irgen.expression_program(rng)
+        P = irgen.statement_program(rng, early_return=0.06 if t % 2 else 0.0) if stmt else irgen.expression_program(rng)
         Q = peephole_function_definition(P)
         rec.count("programs")
         rec.evaluated()
@@ -233,7 +236,8 @@ def shard(rec, tier, index, n_shards):
 
         ok = 0
         for e in range(plan["envs"]):
-            ia, fa = irgen.environment(rng)
+            # finite floats of every kind: dyadic, non-dyadic (0.003, 0.1: re-association is visible) and large
+            ia, fa = irgen.environment(rng, float_values=FLOATS_DYADIC if e % 2 == 0 else FLOATS_ANY)
             verdict = compare(rec, P, Q, tree_state(ia, fa), 20_000, "statement-tree" if stmt else "expression-tree",
                               lambda ia=ia, fa=fa: {"ia": ia, "fa": fa, **describe()})
             if verdict == "equal":
